@@ -4,7 +4,12 @@ SPEC = {
         {'name': 'freduce_size', 'module': 'ibldsp/fourier.py', 'function': 'freduce', 'kind': 'expr', 'target': 'siz[axis]',
          'free': ['siz', 'axis'], 'assume': {'axis is None': False}, 'params': ['siz_axis']},
         {'name': 'fexpand_ilast', 'module': 'ibldsp/fourier.py', 'function': 'fexpand', 'kind': 'expr', 'target': 'ilast', 'free': ['axis'], 'assume': {'axis is None': False}, 'params': ['ns']},
+        {'name': 'fscale_count', 'module': 'ibldsp/fourier.py', 'function': 'fscale', 'kind': 'subexpr',
+         'pattern': r'np\.floor\(ns / 2\) \+ 1', 'params': ['ns']},
+        {'name': 'fscale_start', 'module': 'ibldsp/fourier.py', 'function': 'fscale', 'kind': 'subexpr',
+         'pattern': r'-2 \+ ns % 2', 'params': ['ns']},
     ],
-    'theorems': ['IblVerif.Tie.C18.freduce_size_eq', 'IblVerif.Tie.C18.fexpand_ilast_eq'],
-    'covers': 'fourier.freduce (number of kept bins), fourier.fexpand (index of the last mirrored bin)',
+    'theorems': ['IblVerif.Tie.C18.freduce_size_eq', 'IblVerif.Tie.C18.fexpand_ilast_eq', 'IblVerif.Tie.C18.fscale_count_eq',
+                 'IblVerif.Tie.C18.fscale_start_eq'],
+    'covers': 'fourier.freduce (number of kept bins), fourier.fexpand (index of the last mirrored bin), fourier.fscale (number of non-negative bins, start of the mirrored negative part)',
 }
